@@ -3,11 +3,14 @@
 package pprofile
 
 import (
+	"bytes"
 	"fmt"
+	"math"
 	"reflect"
 	"sort"
 	"strings"
 	"testing"
+	"unsafe"
 
 	"go.opentelemetry.io/collector/pdata/pcommon"
 )
@@ -133,23 +136,116 @@ func g7str(v reflect.Value) string {
 	return sb.String()
 }
 
+// g7rand: a random scalar; one draw in three is an EXTREME of its kind (0, 1, -1, min / max of the width, MaxInt64 and
+// MaxInt64+1 as unsigned, NaN, +-Inf, -0.0, the largest and smallest floats, the empty and a very long string)
 func g7rand(r g7rnd, t reflect.Type) reflect.Value {
 	x := reflect.New(t).Elem()
+	extreme := r.IntN(3) == 0
 	switch k := t.Kind(); {
 	case k == reflect.Bool:
 		x.SetBool(r.IntN(2) == 0)
 	case k >= reflect.Int && k <= reflect.Int64:
-		x.SetInt(int64(r.IntN(4)))
+		if extreme {
+			bits := uint(t.Bits())
+			max := int64(1)<<(bits-1) - 1
+			x.SetInt([]int64{0, 1, -1, max, -max - 1, max - 1}[r.IntN(6)])
+		} else {
+			x.SetInt(int64(r.IntN(4)))
+		}
 	case k >= reflect.Uint && k <= reflect.Uintptr:
-		x.SetUint(uint64(r.IntN(50)))
+		if extreme {
+			bits := uint(t.Bits())
+			all := ^uint64(0) >> (64 - bits)
+			x.SetUint([]uint64{0, 1, all, all >> 1, all>>1 + 1, all - 1}[r.IntN(6)])
+		} else {
+			x.SetUint(uint64(r.IntN(50)))
+		}
 	case k == reflect.Float32, k == reflect.Float64:
-		x.SetFloat(float64(r.IntN(50)) / 2)
+		if extreme {
+			x.SetFloat([]float64{math.NaN(), math.Inf(1), math.Inf(-1), math.Copysign(0, -1), math.MaxFloat64, math.SmallestNonzeroFloat64, -1}[r.IntN(7)])
+		} else {
+			x.SetFloat(float64(r.IntN(50)) / 2)
+		}
 	case k == reflect.String:
-		x.SetString(fmt.Sprint("s", r.IntN(9)))
+		if extreme {
+			x.SetString([]string{"", strings.Repeat("long-", 400), "\u00e9\u4e16\x00 "}[r.IntN(3)])
+		} else {
+			x.SetString(fmt.Sprint("s", r.IntN(9)))
+		}
 	case k == reflect.Array:
-		x.Index(0).SetUint(uint64(1 + r.IntN(200)))
+		if extreme {
+			for i := 0; i < x.Len(); i++ {
+				x.Index(i).SetUint([]uint64{0, 255}[r.IntN(2)])
+			}
+		} else {
+			x.Index(0).SetUint(uint64(1 + r.IntN(200)))
+		}
 	}
 	return x
+}
+
+// g7orig: the protobuf struct behind a wrapper, writable (reflection through the unexported `orig` field)
+func g7orig(v reflect.Value) (o reflect.Value, ok bool) {
+	defer func() {
+		if recover() != nil {
+			ok = false
+		}
+	}()
+	if v.Kind() != reflect.Struct {
+		return o, false
+	}
+	f := v.FieldByName("orig")
+	if !f.IsValid() || f.Kind() != reflect.Ptr || f.IsNil() || f.Elem().Kind() != reflect.Struct {
+		return o, false
+	}
+	e := f.Elem()
+	return reflect.NewAt(e.Type(), unsafe.Pointer(e.UnsafeAddr())).Elem(), true
+}
+
+// g7poke plants scalar values DIRECTLY in the protobuf struct (what arrives from the wire): values a setter would
+// reject, clamp or cannot express — negative nanoseconds behind an unsigned Timestamp, out-of-range enums, negative
+// indices — are then present at a copy's source.
+func g7poke(r g7rnd, v reflect.Value) {
+	o, ok := g7orig(v)
+	if !ok {
+		return
+	}
+	for i := 0; i < o.NumField(); i++ {
+		f := o.Field(i)
+		if !o.Type().Field(i).IsExported() || r.IntN(2) == 0 {
+			continue
+		}
+		switch k := f.Kind(); {
+		case k >= reflect.Int && k <= reflect.Int64, k >= reflect.Uint && k <= reflect.Uint64, k == reflect.Float32, k == reflect.Float64, k == reflect.String:
+			x := g7rand(r, f.Type())
+			for tries := 0; tries < 4 && r.IntN(2) == 0; tries++ { // lean towards the extremes
+				x = g7rand(r, f.Type())
+			}
+			f.Set(x)
+		}
+	}
+}
+
+// g7bytes: the canonical protobuf encoding of the struct behind a wrapper (nil if it has none)
+func g7bytes(v reflect.Value) (b []byte) {
+	defer func() {
+		if recover() != nil {
+			b = nil
+		}
+	}()
+	o, ok := g7orig(v)
+	if !ok {
+		return nil
+	}
+	m := o.Addr().MethodByName("Marshal")
+	if !m.IsValid() {
+		return nil
+	}
+	out := m.Call(nil)
+	if !out[1].IsNil() {
+		return nil
+	}
+	return out[0].Bytes()
 }
 
 func g7raw(r g7rnd, depth int) any {
@@ -249,6 +345,11 @@ func g7fill(r g7rnd, v reflect.Value, depth int) {
 	}
 	names := g7methods(t)
 	var selectors []string
+	defer func() { // last: wire-level values that no setter produces
+		if r.IntN(3) == 0 {
+			g7poke(r, v)
+		}
+	}()
 	for _, n := range names { // setters, one-of selectors, optional removers
 		m := v.MethodByName(n)
 		switch {
@@ -483,6 +584,8 @@ func g7roSweep(r g7rnd, v reflect.Value, path string, depth int, report func(sig
 			}
 		} else if got := g7str(dst); got != before {
 			report("C07/allmsgs/copy-from-read-only-differs-from-source/"+tn, path+".CopyTo want="+before+" got="+got)
+		} else if a, b := g7bytes(v), g7bytes(dst); a != nil && b != nil && !bytes.Equal(a, b) {
+			report("C07/allmsgs/copy-from-read-only-marshals-differently/"+tn, path+".CopyTo")
 		} else if g7panics(func() { g7fill(r, dst, 8) }) { // the clone is mutable
 			report("C07/allmsgs/clone-of-read-only-is-not-mutable/"+tn, path)
 		}
@@ -542,11 +645,17 @@ func TestVerifC07AllMsgsProfile(t *testing.T) {
 		g7fill(rnd, dst, 0)
 		if g7has(src.Type(), "CopyTo") {
 			before := g7str(src)
+			beforeB := g7bytes(src)
 			if g7panics(func() { src.MethodByName("CopyTo").Call([]reflect.Value{dst}) }) {
 				viol("copy-unexpected-panic", "")
 			} else {
 				if got := g7str(dst); got != before {
 					viol("copy-differs-from-source", "want="+before+" got="+got)
+				} else if gotB := g7bytes(dst); beforeB != nil && gotB != nil && !bytes.Equal(gotB, beforeB) {
+					viol("copy-marshals-differently-from-source", fmt.Sprintf("want=%x got=%x", beforeB, gotB))
+				}
+				if beforeB != nil {
+					out.Linef("stat copies_compared_by_bytes 1")
 				}
 				if g7str(src) != before {
 					viol("copy-changed-source", "")
@@ -566,11 +675,14 @@ func TestVerifC07AllMsgsProfile(t *testing.T) {
 		if g7has(src.Type(), "MoveTo") {
 			g7fill(rnd, src, 0)
 			before, fresh := g7str(src), g7str(reflect.ValueOf(ent.mk()))
+			beforeB := g7bytes(src)
 			if g7panics(func() { src.MethodByName("MoveTo").Call([]reflect.Value{dst}) }) {
 				viol("move-unexpected-panic", "")
 			} else {
 				if got := g7str(dst); got != before {
 					viol("move-destination-differs-from-source", "want="+before+" got="+got)
+				} else if gotB := g7bytes(dst); beforeB != nil && gotB != nil && !bytes.Equal(gotB, beforeB) {
+					viol("move-marshals-differently-from-source", fmt.Sprintf("want=%x got=%x", beforeB, gotB))
 				}
 				if got := g7str(src); got != fresh {
 					viol("move-source-not-empty", "got="+got)
